@@ -729,7 +729,9 @@ class MessageManager(ClientLike):
         """Send TIMING_MESSAGE"""
         data = cd.MDF_TIMING_MESSAGE()
         for mt, count in self.message_counts.items():
-            data.timing[mt] = count
+            # Only message types in range have a slot in the timing array
+            if 0 <= mt < cd.MAX_MESSAGE_TYPES:
+                data.timing[mt] = count
         self.message_counts.clear()
 
         for mod in self.modules.values():
